@@ -189,7 +189,7 @@ def _render_op():
     return st.fixed_dictionaries({
         "k": st.just("render"), "n": st.integers(0, 11),
         "m": _w((2, st.none()), (3, _method_tok())),
-        "e": st.sampled_from(["renderer", "renderer", "format", "str"]),
+        "e": st.sampled_from(["renderer", "renderer", "format", "str", "iterator"]),
     })
 
 
@@ -557,6 +557,8 @@ def _resolve_value(tok, c, family):
 def _call(fn):
     try:
         return ("ok", fn())
+    except Violation:
+        raise
     except Exception as e:  # classified by the caller
         return ("raise", e)
 
@@ -576,6 +578,33 @@ def _render(c, node, method, entry):
     if entry == "format":
         letter = {"lines": "L", "whole": "W", "anim": "A"}[method.lower()] if method else ""
         fn = lambda: format(inst, "1.1#" + ("+" + letter if letter else ""))  # noqa: E731
+    elif entry == "iterator":
+        # a per-iteration override must also hold for a cached frame that is rendered again after a size change
+        letter = {"lines": "L", "whole": "W"}[method.lower()]
+
+        def fn():
+            from term_image.image import ImageIterator, Size
+
+            old = inst.size
+            it = ImageIterator(inst, 2, "1.1#+" + letter, True)
+            try:
+                first = [next(it) for _ in range(inst.n_frames)]
+                w, h = inst.rendered_size
+                inst.set_size(w + 1, h)
+                again = next(it)
+            finally:
+                it.close()
+                if isinstance(old, Size):
+                    inst.size = old
+                else:
+                    inst.set_size(*old)
+                inst.seek(0)
+            m0 = decode(first[0], c.model.family[node])[0]
+            m1 = decode(again, c.model.family[node])[0]
+            if m0 != m1:
+                raise Violation(f"ImageIterator of {c.name[node]} with '+{letter}': first pass used {m0!r}, the frame rendered again "
+                                f"after a size change used {m1!r}\n{_prog(c)}", {"setting": RENDER_METHOD, "kind": "override_iterator"})
+            return again
     elif entry == "str":
         fn = lambda: str(inst)  # noqa: E731
     else:
@@ -751,6 +780,8 @@ def _run(c, case, rec):
             entry = op["e"]
             if entry == "str":
                 over = None
+            if entry == "iterator" and not (over and over.lower() in ("lines", "whole") and c.kind[node] == "gif"):
+                entry = "format"  # the iterator entry needs an animated source and a LINES/WHOLE override
             c.trace.append(f"render {c.name[node]} via {entry}" + (f" with method={over!r}" if over else ""))
             got, _ = _render(c, node, over, entry)
             exp = _observable(c, node, over if over else m.effective(RENDER_METHOD, node))
